@@ -184,6 +184,94 @@ class Run:
                             'corrupted_copies_rejected': len(corrupted), 'tlc_states': stats['distinct'],
                             'wall_s': stats['wall_s']})
 
+    def trace_validate_graph(self, traces, name, selftest=True, timeout=900):
+        """(C) attack-graph traces recorded by harness/gtracer.py validated by TLC against Trace_Graph (the GraphSM effect
+        operators). Corrupted copies (a compromise pair dropped from the logged projection, a removed node left in it, an
+        index probe answered with a stale node) must be rejected at the corrupted event."""
+        import copy
+        from harness import validate
+        batch = list(traces)
+        corrupted = {}
+        if selftest:
+            nid = max([t['id'] for t in traces] + [0]) + 1000
+            for t in traces:
+                if len(corrupted) >= 6:
+                    break
+                for k, e in enumerate(t['events']):
+                    if k == 0 or e.get('res') != 'ok':
+                        continue
+                    mode = len(corrupted) % 3
+                    c = None
+                    if mode == 0 and e['op'] == 'Compromise' and e['obs']['reached']:
+                        c = copy.deepcopy(t)
+                        c['events'][k]['obs']['reached'] = c['events'][k]['obs']['reached'][:-1]
+                    elif mode == 1 and e['op'] == 'RemoveNode':
+                        c = copy.deepcopy(t)
+                        prev = t['events'][k - 1]['obs']
+                        gone = [n for n in prev['nodes'] if n['h'] == e['h']]
+                        if gone:
+                            c['events'][k]['obs']['nodes'] = c['events'][k]['obs']['nodes'] + gone
+                        else:
+                            c = None
+                    elif mode == 2 and e['op'] == 'RemoveNode' and e['obs']['idprobe']:
+                        c = copy.deepcopy(t)
+                        pr = c['events'][k]['obs']['idprobe']
+                        z = [q for q in pr if q[1] == 0]
+                        if z:
+                            z[0][1] = e['h']          # the lookup still returns the removed node
+                        else:
+                            c = None
+                    if c is not None:
+                        c['id'] = nid
+                        c['events'] = c['events'][:k + 1]
+                        corrupted[nid] = k + 1
+                        batch.append(c)
+                        nid += 1
+                        break
+        res = validate.validate_graph_traces(batch, timeout=timeout)
+        stats = res.pop('__stats__')
+        if '__violation__' in res:
+            self.divs.append({'kind': 'trace_invariant', 'action': 'trace', 'component': 'invariant', 'features': [],
+                              'detail': res['__violation__'][:2000], 'adapter': 'trace'})
+            return
+        for cid, pos in corrupted.items():
+            v = res.get(cid)
+            if v is None or v['status'] != 'rejected' or v['pos'] != pos:
+                raise tlc.MachineryError('binding self-test failed: corrupted graph trace %s not rejected at event %s: %s'
+                                         % (cid, pos, v))
+        acc = inc = rej = 0
+        for t in traces:
+            v = res[t['id']]
+            if v['status'] == 'accepted':
+                acc += 1
+            elif v['status'] == 'inconclusive':
+                inc += 1
+            else:
+                rej += 1
+                k = v['pos'] - 1
+                ev = t['events'][k] if 0 <= k < len(t['events']) else {}
+                self.divs.append({'kind': 'trace_rejected', 'action': ev.get('op'), 'component': 'trace', 'features': [],
+                                  'step': k, 'label': t.get('label'),
+                                  'events': [{a: b for a, b in e.items() if a != 'obs'} for e in t['events'][:k + 1]][-8:],
+                                  'obs_at_rejection': {a: b for a, b in (ev.get('obs') or {}).items() if a != 'nodes'},
+                                  'adapter': 'trace'})
+            if len(t['events']) >= 3:
+                self.nontrivial.add('gtrace:%s:%s' % (name, t['id']))
+        nev = sum(len(t['events']) for t in traces)
+        self.states += stats['distinct']
+        self.transitions += stats['generated']
+        self.traces += len(traces)
+        self.cases += len(traces)
+        self.steps += nev
+        self.inconclusive += inc
+        if traces and len(self.samples) < 5:
+            self.samples.append({'graph_trace_from': name, 'events': [{k: v for k, v in e.items() if k != 'obs'}
+                                                                      for e in traces[0]['events'][:8]]})
+        self.phases.append({'phase': 'trace_validation', 'name': name, 'traces': len(traces), 'events': nev,
+                            'accepted': acc, 'inconclusive_out_of_domain': inc, 'rejected': rej,
+                            'corrupted_copies_rejected': len(corrupted), 'tlc_states': stats['distinct'],
+                            'wall_s': stats['wall_s']})
+
     def absorb(self, tot):
         self.cases += tot['cases']
         self.steps += tot['steps']
